@@ -541,8 +541,26 @@ func (m *Machine) visitInstr(fr *Frame, instr ssa.Instruction) continuation {
 		*addr = m.zero(derefType(instr.Type()))
 
 	case *ssa.MakeSlice:
-		ln := m.concreteInt(fr, fr.get(instr.Len).(*Term), "make len")
-		cp := m.concreteInt(fr, fr.get(instr.Cap).(*Term), "make cap")
+		lnT, cpT := fr.get(instr.Len).(*Term), fr.get(instr.Cap).(*Term)
+		if (!lnT.IsConst() || !cpT.IsConst()) && !isHarnessFrame(fr) && m.initDepth == 0 {
+			// an allocation whose size is a function of symbolic input (C08.alloc observes this)
+			m.symbolicAllocs++
+			m.res.Stubs["allocation size depends on symbolic input at "+fr.where()]++
+			if m.allocGuardID != "" && !m.inPrefix() {
+				// can the requested capacity exceed the guard? then that is the counterexample, reported at once
+				big := m.tf.Slt(m.tf.Const(64, uint64(m.allocGuardBound)), m.tf.Resize(cpT, 64, true))
+				m.flushPC()
+				if v, model, smodel := m.solver.ModelWith(big, m.allInputs()); v == VSat {
+					m.recordViolation(fr, m.allocGuardID, "assert", "allocation of a size chosen by the input at "+fr.where(), model, smodel)
+				}
+				m.Assume(fr, m.tf.Not(big))
+			} else if m.allocGuardID != "" {
+				big := m.tf.Slt(m.tf.Const(64, uint64(m.allocGuardBound)), m.tf.Resize(cpT, 64, true))
+				m.addPC(m.tf.Not(big))
+			}
+		}
+		ln := m.concreteInt(fr, lnT, "make len")
+		cp := m.concreteInt(fr, cpT, "make cap")
 		if ln < 0 || cp < ln {
 			m.runtimePanic(fr, "makeslice: len/cap out of range")
 		}
